@@ -97,8 +97,20 @@ def mk_point(m, scalar_term):
     if poly.is_zero() or m.p.branch(canon % N == 0):
         if not poly.is_zero():
             nz.add_zero(poly)       # later scalars on this path are reduced modulo this fact
+            # scalars registered earlier may now have a smaller normal form: tie the two names together
+            for (p0, c0, s0) in list(m.p.__dict__.get("_curve_polys", [])):
+                p1 = nz.reduce(p0)
+                if p1.key() != p0.key() and not p1.is_zero():
+                    _, c1, s1 = nz.canonical_poly(p1)
+                    register_scalar(m, c1)
+                    if s0 == s1:
+                        m.p.assume(z3.And(Xc(c0) == Xc(c1), Yc(c0) == Yc(c1)))
+                    else:
+                        m.p.assume(z3.And(Xc(c0) == Xc(c1), Yc(c0) == P - Yc(c1)))
+                    m.p._curve_polys.append((p1, c1, s1))
         return m.p.alloc(HObj(pecc.S256Point, {"x": None, "y": None, "a": a_f, "b": b_f, "_dl": I(0)}))
     register_scalar(m, canon)
+    m.p.__dict__.setdefault("_curve_polys", []).append((poly, canon, sigma))
     xt = Xc(canon)
     yt = Yc(canon) if sigma > 0 else P - Yc(canon)
     dl = canon % N if sigma > 0 else (-canon) % N
